@@ -43,7 +43,7 @@ def budget(tier):
 
 @st.composite
 def _case(draw):
-    table = draw(progs.tables(min_rows=1, max_rows=6, ragged=False, extra=False, pad=False))
+    table = draw(progs.tables(min_rows=1, max_rows=6, ragged=False, extra=False, pad=False, space_cells=False))
     scan = draw(progs.scans(table))
     env = progs.Env(table)
     x_expr, _ = draw(st.sampled_from(["n", "s"])), None
@@ -66,8 +66,20 @@ def _case(draw):
             chunks.append(["text", s])
             prev_ref = False
             continue
-        r = draw(st.sampled_from(["var", "var2", "stackidx", "stacklen", "hname", "hidx", "meta", "csvpath", "csvpath"]))
-        if r == "var":
+        r = draw(st.sampled_from(["var", "var2", "stackidx", "stacklen", "hname", "hidx", "meta", "csvpath", "csvpath",
+                                  "track", "numidx", "numlen", "sparse"]))
+        sparse = [c for c in table["cols"] if not c["dense"] and " " not in c["name"]]
+        if r == "sparse" and not sparse:
+            r = "track"
+        if r == "track":
+            chunks.append(["ref", "vartrack", "d", "k"])
+        elif r == "numidx":
+            chunks.append(["ref", "stackidx", "nums", 0])
+        elif r == "numlen":
+            chunks.append(["ref", "stacklen", "nums"])
+        elif r == "sparse":
+            chunks.append(["ref", "hname", draw(st.sampled_from(sparse))["name"]])
+        elif r == "var":
             chunks.append(["ref", "var", "x"])
         elif r == "var2":
             chunks.append(["ref", "var", "t"])
@@ -85,6 +97,14 @@ def _case(draw):
         else:
             chunks.append(["ref", "csvpath", draw(st.sampled_from(CSVPATH_FIELDS)), "pid"])
         prev_ref = True
+    sparse_cols = [c for c in table["cols"] if not c["dense"] and " " not in c["name"]]
+    if sparse_cols and draw(st.integers(0, 4)) == 3:
+        # end with '<text ending in a space><reference that is empty on some lines>'
+        if chunks[-1][0] == "ref":
+            chunks.append(["text", draw(st.sampled_from([" aka ", ", ", ": ", " - "]))])
+        else:
+            chunks[-1][1] = chunks[-1][1].rstrip(" ") + " "
+        chunks.append(["ref", "hname", draw(st.sampled_from(sparse_cols))["name"]])
     # no leading/trailing whitespace in the whole template
     if chunks[0][0] == "text":
         chunks[0][1] = chunks[0][1].lstrip(" ") or "a"
@@ -94,11 +114,17 @@ def _case(draw):
             t = "," if len(chunks) > 1 and chunks[-2][0] == "ref" else "a"
         chunks[-1][1] = t
     quals = draw(st.sampled_from([[], [], ["onmatch"], ["once"]]))
+    dk = progs.expr_n(draw, env, 0) if draw(st.booleans()) else ["t", 0]
+    numv = progs.expr_n(draw, env, 0) if draw(st.booleans()) else ["t", 0]
+    pop_where = draw(st.sampled_from(["none", "none", "before", "after"]))
+    if quals == ["onmatch"] and pop_where == "after":
+        pop_where = "before"
     decider = None
     if draw(st.booleans()) or quals == ["onmatch"]:
         nrec = len(table["records"])
         decider = ["f", "in", [], [["h", "id"], ["t", "|".join(f"r{i}" for i in draw(st.lists(st.integers(0, nrec), min_size=1, max_size=4)))]]]
-    return {"table": table, "scan": scan, "x": xe, "t": te, "chunks": chunks, "quals": quals, "decider": decider}
+    return {"table": table, "scan": scan, "x": xe, "t": te, "chunks": chunks, "quals": quals, "decider": decider,
+            "dk": dk, "numv": numv, "pop": pop_where}
 
 
 def strategy(tier):
@@ -126,8 +152,15 @@ def run_case(case, sb):
     records = case["table"]["records"]
     chunks = case["chunks"]
     comps = [["=", "x", [], None, case["x"]], ["=", "t", [], None, case["t"]],
-             ["f", "push", [], [["t", "stk"], ["h", "id"]]],
-             ["f", "print", case["quals"], [["pt", chunks]]]]
+             ["f", "push", [], [["t", "stk"], ["h", "id"]]]]
+    if case.get("dk") is not None:
+        comps.append(["=", "d", [], "k", case["dk"]])
+        comps.append(["f", "push", [], [["t", "nums"], case["numv"]]])
+        if case.get("pop") == "before":
+            comps.append(["=", "p", [], None, ["f", "pop", [], [["t", "nums"]]]])
+    comps.append(["f", "print", case["quals"], [["pt", chunks]]])
+    if case.get("dk") is not None and case.get("pop") == "after":
+        comps.append(["=", "p", [], None, ["f", "pop", [], [["t", "nums"]]]])
     if case["decider"] is not None:
         comps.append(case["decider"])
     prog = {"comps": comps, "mode": "AND"}
